@@ -80,7 +80,7 @@ func c07Year(w *W, y int) {
 		for _, d := range []int{1, 4, 5, 10, 14, 15, 28, 29, 30, 31} {
 			// the sub-second part rotates through 0, half a second and the last nanosecond: the fields are those of the
 			// second that contains the instant
-			t := time.Date(y, time.Month(m), d, 23, 59, 59, []int{0, 500000000, 999999999}[(y+m+d)%3], time.UTC)
+			t := time.Date(y, time.Month(m), d, 23, 59, 59, []int{0, 500000000, 999999999}[(y+m+d)%3], tzOf(y+d))
 			if t.Year() != y || int(t.Month()) != m || t.Day() != d {
 				continue // time.Time normalised the date (it does not exist in the proleptic Gregorian calendar)
 			}
